@@ -36,12 +36,15 @@ POOL_LOCAL = [
     ("bad5.txt", {"query": "lit-a/add-x/bad5.txt", "title": "Bad 5"}, None),
     ("e1.txt", "lit-/ident/e1.txt", None),
     ("dere.txt", "./e1.txt/-/cat-tail/dere.txt", "e1.txt"),
+    ("derbad.txt", {"query": "./bad.txt/-/cat-q/cat-r/derbad.txt", "title": "Derived from a failing recipe"}, "bad.txt"),
 ]
 POOL_SUB = [
     ("s1.txt", "lit-sub/cat-q/s1.txt", None),
     ("s2.txt", "../t1.txt/-/cat-w/s2.txt", "../t1.txt"),
     ("s3.json", {"query": "./s1.txt/-/cat-e/cat-~X~/one~E/s3.json", "title": "S3"}, "s1.txt"),
     ("sbad.txt", "../bad.txt/-/ident/sbad.txt", "../bad.txt"),
+    # transformations that would turn "no data" into a normal-looking text if the failed dependency did not stop them
+    ("sbad2.txt", "../bad.txt/-/cat-w/sbad2.txt", "../bad.txt"),
 ]
 POOL_SUB2 = [
     ("u1.txt", "lit-u/cat-v/u1.txt", None),
@@ -278,8 +281,14 @@ def run_history(env, scn, hist, scratch, viol, stats):
                     already_failed = case.state[key] == "error"
                     case.state[key] = "error"
                     # dependencies that succeeded are materialised
-                    for dep in ([] if already_failed and case.scn["backend"] == "memory" else _closure(case, key)):
-                        if dep in case.made:
+                    for dep in _closure(case, key):
+                        if dep in case.made or dep == key:
+                            continue
+                        if already_failed:
+                            # a re-read of a recipe that already failed may or may not evaluate it again (not
+                            # constrained): its dependencies may or may not have been (re)made
+                            if case.state.get(dep) not in ("error", "ready"):
+                                case.state[dep] = "unknown"
                             continue
                         if expected(case, env, dep)[0] is not None:
                             case.made.add(dep)
